@@ -11,9 +11,9 @@ def c16_request(rng, keys):
     k = rng.choice(keys)
     r = rng.random()
     if r < 0.18: return ("GET", [k])
-    if r < 0.30: return ("SET", [k, rng.choice([b"0", b"5", b"x"])])
+    if r < 0.30: return ("SET", [k, rng.choice([b"0", b"5", b"x", b""])])
     if r < 0.40: return ("SETNX", [k, rng.choice([b"1", b"2", b"3"])])
-    if r < 0.50: return ("GETSET", [k, rng.choice([b"10", b"20", b"30", b"40"])])
+    if r < 0.50: return ("GETSET", [k, rng.choice([b"10", b"20", b"30", b"40", b""])])
     if r < 0.70: return ("INCR", [k])
     if r < 0.78: return ("DECRBY", [k, rng.choice([b"1", b"3"])])
     if r < 0.88: return ("APPEND", [k, rng.choice([b"a", b"b", b"1"])])
@@ -77,6 +77,10 @@ def run_c16(tier, seed):
         add([[("DECRBY", [b"c", b"1"]), ("INCR", [b"c"]), ("GET", [b"c"])] for _ in range(n)], "%d clients DECRBY / INCR / GET" % n)
         add([[("INCR", [b"c"])] * 3 for _ in range(n)], "%d clients x 3 INCR on one key" % n, pw=b"secret")
         add([[("APPEND", [b"a", b"%d" % i])] * 2 for i in range(n)], "%d clients x 2 APPEND" % n, pw=b"secret")
+        # the empty string is a value like any other (a key that holds it exists, and reads return it - not nil)
+        add([[("SET", [b"e", b""]), ("GET", [b"e"]), ("SETNX", [b"e", b"%d" % i]), ("GET", [b"e"])] for i in range(n)], "%d clients SET the empty value / GET / SETNX / GET" % n)
+        add([[("GETSET", [b"ge", b"" if i % 2 else b"%d" % i])] * 2 for i in range(n)], "%d clients x 2 GETSET chain with empty values" % n)
+        add([[("MSET", [b"p", b"", b"q", b"%d" % i]), ("MGET", [b"p", b"q"]), ("STRLEN", [b"p"])] for i in range(n)], "%d clients MSET an empty and a non-empty value, MGET, STRLEN" % n)
     reps = 40 if tier == "quick" else 400
     cases = cases * reps
     # arguments larger than the usual I/O buffers (parsed outside the command lock): what a GET returns was written by somebody
